@@ -86,6 +86,12 @@ def run(prog, chk, tier):
     A.handle_stun_table(prog, chk)
     A.taken_state_untouched(prog, chk)
     A.take_outstanding_table(prog, chk)
+    # "validates under them": the wiring of validate_integrity (which attribute, which bytes, which key, whose verdict)
+    # is decided by C04 and evaluated here as a premise
+    from rules.c01 import sub_check
+    ok, bad = sub_check(prog, "c04", rules={"validate-side", "attribute-choice", "tag-comparison", "key-material"})
+    chk.ob("premise", "validate_integrity is wired as C04 requires (attribute choice, HMAC input, key, verdict, tag comparison)", ok,
+           detail="failing: %s" % bad, how="C04 rule instances re-evaluated on this tree")
     had_credentials_definition(prog, chk)
     # remote_credentials: who may write
     accs = field_accesses(prog, A.AGENT_V, "remote_credentials")
